@@ -43,11 +43,12 @@ func (s Stack) Apply(opt *Option, profile string) (string, error) {
 		return "", fmt.Errorf("no profile to stack")
 	}
 	names := opt.ArgList
+	regClean := regCleanStakedRules
 	if names[0] != "X" {
-		regCleanStakedRules = slices.Insert(regCleanStakedRules, 0,
+		regClean = slices.Concat(
 			util.ToRegexRepl([]string{
 				`(?m)^.*(|P|p)(|U|u)(|i)x,.*$`, ``, // Remove X transition rules
-			})...,
+			}), regCleanStakedRules,
 		)
 	} else {
 		names = names[1:]
@@ -61,7 +62,7 @@ func (s Stack) Apply(opt *Option, profile string) (string, error) {
 			return "", fmt.Errorf("no profile found in %s", name)
 		}
 		stackedRules := m[1]
-		stackedRules = regCleanStakedRules.Replace(stackedRules)
+		stackedRules = regClean.Replace(stackedRules)
 		res += "  # Stacked profile: " + name + "\n" + stackedRules + "\n"
 	}
 
